@@ -50,7 +50,7 @@ Qed.
 Lemma js_receiver_reify en pc x s : js_ok en x ->
   js_receiver (reify_e en pc x) s = if needs_paren en x then ("(" ++ s ++ ")")%string else s.
 Proof.
-  destruct x as [n|k|n|i|i|n|n|o a b|a|a|f args|f args|items|items|fam pid a|pid it mn|tk ti|tn|an ax|kn]; intros Hok; cbn [reify_e needs_paren js_receiver]; try reflexivity.
+  destruct x as [n|k|n|i|i|n|n|o a b|a|a|f args|f args|items|items|fam pid a|pid it mn|tk ti|tn|an ax|kn|fx]; intros Hok; cbn [reify_e needs_paren js_receiver]; try reflexivity.
   - rewrite str_of_int_no_quote. reflexivity.
   - destruct (nth k (e_consts en) (CInt 0)); cbn [const_node js_receiver]; [|rewrite str_of_int_no_quote; reflexivity].
     match goal with |- context[starts_with ?q ?t] => destruct (starts_with q t) end; reflexivity.
@@ -193,6 +193,7 @@ Proof.
     destruct (String.eqb (nm en n) "date" || String.eqb (nm en n) "time").
     + cbn [pp_js map]. unfold join. repeat rewrite sapp_assoc. reflexivity.
     + destruct (assoc_str (nm en n) OPERATION_KNOWN_PROPERTIES); reflexivity.
+  - (* field *) intros x IHx Hx pc ind. cbn [reify_e to_js gen_js]. rewrite (IHx Hx). reflexivity.
   - intros _ pc ind. reflexivity.
   - intros x l IHx IHl [Hx Hl] pc ind. cbn [reify_args]. destruct (reify_args en (pc + zlen (compile_e x)) l) as [ns pa] eqn:Er.
     cbn [fst map]. rewrite (IHx Hx). specialize (IHl Hl (pc + zlen (compile_e x))%Z ind). rewrite Er in IHl. cbn [fst] in IHl. rewrite IHl. reflexivity.
@@ -294,6 +295,7 @@ Proof.
   - intros n x _. reflexivity.
   - intros n. cbn [to_js name_e]. destruct (String.eqb (nm en n) "date" || String.eqb (nm en n) "time"); [reflexivity|].
     cbn [read_js]. destruct (String.eqb _ "_global"); reflexivity.
+  - intros x Hx. cbn [to_js name_e read_js]. rewrite Hx. reflexivity.
   - constructor.
   - intros x l Hx Hl. constructor; assumption.
 Qed.
